@@ -446,7 +446,8 @@ func ValidUTF8(p []byte) bool {
 		if ru >= '\u007f' && ru <= '\u009f' {
 			return false
 		}
-		if ru == utf8.RuneError {
+		// an invalid encoding decodes as RuneError with size 1; U+FFFD itself (size 3) is a legal character
+		if ru == utf8.RuneError && size <= 1 {
 			return false
 		}
 		if !utf8.ValidRune(ru) {
